@@ -61,6 +61,14 @@ KINDS = ["msg_nocontext", "msg_in_action", "action_start", "action_success", "ac
          "write_plain", "msg_call_write", "msg_write_action"]
 
 
+class OddSyntaxError(SyntaxError):
+    """A SyntaxError as an application-level parser raises it, with details the traceback module cannot render (a bytes line, a
+    non-integer offset)."""
+
+    def __init__(self, text):
+        SyntaxError.__init__(self, text, ("<config>", 1, "7", "f(1, 2\n") if len(text) % 2 else ("<config>", 1, 7, b"f(1, 2\n"))
+
+
 def plan(tier, seed):
     n = 60000 if tier == "quick" else 600000
     specs = [{"part": "seq", "seed": seed, "lo": i, "hi": min(n, i + BATCH), "globals": (i // BATCH) % 2 == 1} for i in range(0, n, BATCH)]
@@ -231,7 +239,7 @@ def one(seed, i, has_globals, gfields, res, templates=(), late_add=False):
     # any Exception subclass may come out of a serializer, including ones that iteration protocols treat specially
     state["exc_class"] = rng.choice([excs.SerFault, StopIteration, StopAsyncIteration, KeyError, IndexError, ValueError, TypeError, RuntimeError,
                                      AssertionError, AttributeError, LookupError, ArithmeticError, excs.BadStr, RecursionError, NotImplementedError,
-                                     ValidationErrorOneArg, ValidationErrorOneArg])
+                                     ValidationErrorOneArg, ValidationErrorOneArg, OddSyntaxError])
     state["shared_exc"] = None
     if rng.random() < 0.3:
         # a stored exception object (a failed Future's result(), a pre-built module-level error) raised again and again
